@@ -300,6 +300,20 @@ class Env:
             cl = ctx.classification
             return record(ctx.attempt, env._cname(cl.klass), ticks(cl.retry_after_s),
                           ticks(ctx.prev_sleep_s), ticks(ctx.remaining_s), ctx.cause)
+        if which in self.cfg.get("adaptive", []):
+            # a strategy object that takes outcome reports, like AdaptiveStrategy
+            class OutcomeAware:
+                def __call__(self, ctx):
+                    return ctx_strategy(ctx)
+
+                def record_failure(self, klass=None):
+                    env.trace.append({"e": "srec", "which": which, "what": "failure",
+                                      "k": env._cname(klass) if klass is not None else "-", "t": env.now()})
+
+                def record_success(self):
+                    env.trace.append({"e": "srec", "which": which, "what": "success", "k": "-",
+                                      "t": env.now()})
+            return OutcomeAware()
         return ctx_strategy
 
     # ------------------------------------------------------------------ abort / handler / sleep
